@@ -6,6 +6,11 @@ import json, glob, os, subprocess, sys, re, time
 root = os.path.dirname(os.path.dirname(os.path.abspath(__file__)))
 pref = sys.argv[1] if len(sys.argv) > 1 else ""
 res = {}
+# SEEDALL_MINUTES: stop starting new ones after this many minutes (the result
+# file then says which were not re-run)
+budget = float(os.environ.get("SEEDALL_MINUTES", "0")) * 60
+tstart = time.time()
+skipped = []
 for d in sorted(glob.glob(os.path.join(root, "seeded", pref + "*"))):
     mp = os.path.join(d, "meta.json")
     if not os.path.exists(mp):
@@ -16,11 +21,17 @@ for d in sorted(glob.glob(os.path.join(root, "seeded", pref + "*"))):
         # (see its meta.json): not re-run
         continue
     props = sorted({k.split("/")[0] for k, v in m.get("checks_run", {}).items() if v.get("exit") == 1})
+    if budget and time.time() - tstart > budget:
+        skipped.append(m["id"])
+        continue
     t0 = time.time()
     r = subprocess.run([os.path.join(root, "tools", "seedcheck.py"), os.path.join(d, "patch.diff")] + props, capture_output=True, text=True)
     caught = re.findall(r"^(C\d\d) quick: exit=1", r.stdout, re.M)
     res[m["id"]] = {"props": props, "caught": caught, "seconds": round(time.time() - t0), "note": (r.stderr or "").strip()[:200]}
     print(m["id"], "caught by", caught, "of", props, res[m["id"]]["note"], flush=True)
+    json.dump(res, open(os.path.join(root, "seeded", "RECHECK.json"), "w"), indent=1)
+if skipped:
+    res["_not_rerun_time_budget"] = skipped
 json.dump(res, open(os.path.join(root, "seeded", "RECHECK.json"), "w"), indent=1)
-bad = [k for k, v in res.items() if not v["caught"]]
+bad = [k for k, v in res.items() if not k.startswith("_") and not v["caught"]]
 print("not caught:", bad)
